@@ -398,7 +398,11 @@ impl<Aux> Vm<'_, Aux> {
                     })?;
                 }
                 Instruction::SetProperty => {
-                    let [key, mut instance, value] = self.runtime_data.value_stack.pop_n::<3>();
+                    // the operands stay on the stack (rooted) until the insert is done: growing
+                    // the table allocates, and that may start a collection
+                    let key = self.runtime_data.value_stack.peek_last(0);
+                    let mut instance = self.runtime_data.value_stack.peek_last(1);
+                    let value = self.runtime_data.value_stack.peek_last(2);
                     let table = get_table_mut(&mut instance).map_err(|err| {
                         payload_to_error(err, *instr_ptr, &self.runtime_data.call_stack)
                     })?;
@@ -411,6 +415,7 @@ impl<Aux> Vm<'_, Aux> {
                         .map_err(|err| {
                             payload_to_error(err, *instr_ptr, &self.runtime_data.call_stack)
                         })?;
+                    self.runtime_data.value_stack.pop_n::<3>();
                 }
                 Instruction::BeginForEach => {
                     instr_execution::begin_for_each(self, &program.bytecode, instr_ptr).map_err(
@@ -664,7 +669,9 @@ impl<Aux> Vm<'_, Aux> {
                     payload_to_error(err, *instr_ptr, &self.runtime_data.call_stack)
                 })?,
                 Instruction::NthRow => {
-                    let [i, mut instance] = self.runtime_data.value_stack.pop_n::<2>();
+                    // the table stays on the stack (rooted) while the row object is allocated
+                    let i = self.runtime_data.value_stack.peek_last(0);
+                    let mut instance = self.runtime_data.value_stack.peek_last(1);
                     let table = get_table_mut(&mut instance).map_err(|err| {
                         payload_to_error(err, *instr_ptr, &self.runtime_data.call_stack)
                     })?;
@@ -704,6 +711,7 @@ impl<Aux> Vm<'_, Aux> {
                         let v = self.init_string("value")?;
                         row_table.insert(Value::Object(k.0), key)?;
                         row_table.insert(Value::Object(v.0), value)?;
+                        self.runtime_data.value_stack.pop_n::<2>();
                         self.stack_push(Value::Object(row.0))?;
                         Ok(())
                     })()
@@ -712,14 +720,16 @@ impl<Aux> Vm<'_, Aux> {
                     })?;
                 }
                 Instruction::AppendTable => {
-                    let mut instance = self.stack_pop();
-                    let value = self.stack_pop();
+                    // keep the operands rooted while the table may grow (see SetProperty)
+                    let mut instance = self.runtime_data.value_stack.peek_last(0);
+                    let value = self.runtime_data.value_stack.peek_last(1);
                     let table = get_table_mut(&mut instance).map_err(|err| {
                         payload_to_error(err, *instr_ptr, &self.runtime_data.call_stack)
                     })?;
                     table.append(value).map_err(|err| {
                         payload_to_error(err, *instr_ptr, &self.runtime_data.call_stack)
                     })?;
+                    self.runtime_data.value_stack.pop_n::<2>();
                 }
 
                 Instruction::PopTable => {
